@@ -881,6 +881,15 @@ func (obj *Package) GetFunc(name string) (fi *FuncInfo) {
 	return
 }
 
+// GetLambda returns the Lambda registered for the name, which must be
+// lowercase, or nil if there is none.
+func (obj *Package) GetLambda(name string) (lam *Lambda) {
+	obj.mu.Lock()
+	lam = obj.lambdas[name]
+	obj.mu.Unlock()
+	return
+}
+
 // DefLambda registers a named lambda function. This is called by defun.
 func (obj *Package) DefLambda(name string, lam *Lambda, fc func(args List) Object, kind Symbol) (fi *FuncInfo) {
 	obj.mu.Lock()
